@@ -179,6 +179,96 @@ impl CommonDeriveInput {
     }
 }
 
+/// If there are bounded type parameters which are the type of some field, we
+/// need to impose the same bounds on their `SerType` and on their `DeserType`,
+/// as they replace the parameter in the `SerType` and in the `DeserType` of the
+/// type being derived. Bounds can be specified inline or in a where clause.
+///
+/// For zero-copy types the `DeserType` is a reference to the type itself, so
+/// no type parameter is replaced and only the `SerType` needs the bounds.
+fn add_ser_deser_bounds(
+    generics: &syn::Generics,
+    field_types: &[String],
+    is_zero_copy: bool,
+    where_clause_ser: &mut WhereClause,
+    where_clause_des: &mut WhereClause,
+) {
+    // Gather (parameter, bounds) pairs from inline bounds and where clauses
+    let mut bounded: Vec<(
+        syn::Ident,
+        Punctuated<syn::TypeParamBound, token::Plus>,
+    )> = vec![];
+    let mut type_params = vec![];
+    for param in generics.params.iter() {
+        if let GenericParam::Type(t) = param {
+            type_params.push(t.ident.clone());
+            if !t.bounds.is_empty() {
+                bounded.push((t.ident.clone(), t.bounds.clone()));
+            }
+        }
+    }
+    if let Some(where_clause) = &generics.where_clause {
+        for predicate in where_clause.predicates.iter() {
+            if let WherePredicate::Type(pt) = predicate {
+                if pt.lifetimes.is_some() {
+                    continue;
+                }
+                let bounded_ty = pt.bounded_ty.to_token_stream().to_string();
+                if let Some(ident) = type_params.iter().find(|x| **x == bounded_ty) {
+                    bounded.push((ident.clone(), pt.bounds.clone()));
+                }
+            }
+        }
+    }
+
+    for (ty, bounds) in bounded {
+        // We are just interested in parameters that are types of fields.
+        if !field_types.iter().any(|x| ty == x) {
+            continue;
+        }
+        if !is_zero_copy {
+            // Add a lifetime so we express bounds on DeserType
+            let mut lifetimes = Punctuated::new();
+            lifetimes.push(GenericParam::Lifetime(LifetimeParam {
+                attrs: vec![],
+                lifetime: syn::Lifetime::new(
+                    "'epserde_desertype",
+                    proc_macro2::Span::call_site(),
+                ),
+                colon_token: None,
+                bounds: Punctuated::new(),
+            }));
+            // Add the type bounds to the DeserType
+            where_clause_des
+                .predicates
+                .push(WherePredicate::Type(PredicateType {
+                    lifetimes: Some(BoundLifetimes {
+                        for_token: token::For::default(),
+                        lt_token: token::Lt::default(),
+                        lifetimes,
+                        gt_token: token::Gt::default(),
+                    }),
+                    bounded_ty: syn::parse_quote!(
+                        <#ty as epserde::deser::DeserializeInner>::DeserType<'epserde_desertype>
+                    ),
+                    colon_token: token::Colon::default(),
+                    bounds: bounds.clone(),
+                }));
+        }
+        // Add the type bounds to the SerType
+        where_clause_ser
+            .predicates
+            .push(WherePredicate::Type(PredicateType {
+                lifetimes: None,
+                bounded_ty: syn::parse_quote!(
+                    <#ty as epserde::ser::SerializeInner>::SerType
+                ),
+                colon_token: token::Colon::default(),
+                bounds,
+            }));
+    }
+}
+
 /// Return whether the struct has attributes `repr(C)`, `zero_copy`, and `deep_copy`.
 ///
 /// Performs coherence checks (e.g., to be `zero_copy` the struct must be `repr(C)`).
@@ -372,57 +462,16 @@ pub fn epserde_derive(input: TokenStream) -> TokenStream {
             // If there are bounded type parameters which are fields of the
             // struct, we need to impose the same bounds on the SerType and on
             // the DeserType.
-            derive_input.generics.params.iter().for_each(|param| {
-                if let GenericParam::Type(t) = param {
-                    let ty = &t.ident;
-
-                    // We are just interested in types with bounds that are
-                    // types of fields of the struct.
-                    //
-                    // Note that types_with_generics contains also field types
-                    // *containing* a type parameter, but that just slows down
-                    // the search.
-                    if ! t.bounds.is_empty() &&
-                        types_with_generics.iter().any(|x| *ty == x.to_token_stream().to_string()) {
-
-                        // Add a lifetime so we express bounds on DeserType
-                        let mut lifetimes = Punctuated::new();
-                        lifetimes.push(GenericParam::Lifetime(LifetimeParam {
-                            attrs: vec![],
-                            lifetime: syn::Lifetime::new("'epserde_desertype", proc_macro2::Span::call_site()),
-                            colon_token: None,
-                            bounds: Punctuated::new(),
-                        }));
-                        // Add the type bounds to the DeserType
-                        where_clause_des
-                            .predicates
-                            .push(WherePredicate::Type(PredicateType {
-                                lifetimes: Some(BoundLifetimes {
-                                    for_token: token::For::default(),
-                                    lt_token: token::Lt::default(),
-                                    lifetimes,
-                                    gt_token: token::Gt::default(),
-                                }),
-                                bounded_ty: syn::parse_quote!(
-                                    <#ty as epserde::deser::DeserializeInner>::DeserType<'epserde_desertype>
-                                ),
-                                colon_token: token::Colon::default(),
-                                bounds: t.bounds.clone(),
-                        }));
-                        // Add the type bounds to the SerType
-                        where_clause_ser
-                            .predicates
-                            .push(WherePredicate::Type(PredicateType {
-                                lifetimes: None,
-                                bounded_ty: syn::parse_quote!(
-                                    <#ty as epserde::ser::SerializeInner>::SerType
-                                ),
-                                colon_token: token::Colon::default(),
-                                bounds: t.bounds.clone(),
-                        }));
-                    }
-                }
-            });
+            add_ser_deser_bounds(
+                &derive_input.generics,
+                &types_with_generics
+                    .iter()
+                    .map(|x| x.to_token_stream().to_string())
+                    .collect::<Vec<_>>(),
+                is_zero_copy,
+                &mut where_clause_ser,
+                &mut where_clause_des,
+            );
 
             if is_zero_copy {
                 quote! {
@@ -750,6 +799,19 @@ pub fn epserde_derive(input: TokenStream) -> TokenStream {
                     }
                 })
                 .collect::<Vec<_>>();
+            // If there are bounded type parameters which are fields of some
+            // variant, we need to impose the same bounds on the SerType and on
+            // the DeserType.
+            add_ser_deser_bounds(
+                &derive_input.generics,
+                &types_with_generics
+                    .iter()
+                    .map(|x| x.to_string())
+                    .collect::<Vec<_>>(),
+                is_zero_copy,
+                &mut where_clause_ser,
+                &mut where_clause_des,
+            );
             let tag = (0..variants.len()).collect::<Vec<_>>();
 
             if is_zero_copy {
